@@ -7,8 +7,8 @@ class C17(Prop):
     id = "C17"
     title = "Identifier conversion helpers produce the 3GPP encodings and invert exactly"
     lean_module = "Stgutg.Props.C17"
-    extra_modules = ["Stgutg.Proofs.GenTieConvert"]
-    gen = ["pure-convert"]
+    extra_modules = ["Stgutg.Proofs.GenTieConvert", "Stgutg.Gen.PureSelftest"]
+    gen = ["pure-convert", "pure-selftest"]
     theorems = [
         # tie by translation: AmfIdToNas / PlmnIDToNas / SnssaiToNas regenerated from nasConvert/*.go ARE the hand models
         "Stgutg.Proofs.GenTie.Convert.AmfIdToNas_eq", "Stgutg.Proofs.GenTie.Convert.PlmnIDToNas_eq",
@@ -38,7 +38,7 @@ class C17(Prop):
             "non-canonical spellings, 46 malformed texts, odd bit lengths); Dnn; and the standard-library calls themselves (x-*); "
             "non-trivial = the call returned a value; distinct by op line")
     trusted_base = [
-        "TIE BY TRANSLATION (gen pure-convert, harness/cmd/gen/pure*.go -> lean/Stgutg/Gen/PureConvert.lean, regenerated from the source text on every run): nasConvert.AmfIdToNas, PlmnIDToNas, SnssaiToNas (hex.DecodeString stays a parameter on both sides; ProtocolConfigurationOptions.go, ngapConvert and util_3gpp stay tied by the conv domain only). The theorems GenTie.Convert.{AmfIdToNas_eq, PlmnIDToNas_eq, SnssaiToNas_eq} prove generated definition = hand model for ALL inputs, so a change of the Go text changes the generated definition and the theorem stops checking, whatever input would show it. Trusted here instead of sampling: the translator's grammar and its runtime Gen/PureRt.lean (Go's fixed-width arithmetic, index / slice panics, value semantics of slices under the translator's no-alias check, go/types constant evaluation); a construct outside the grammar fails closed (TRANSLATOR-FAILED file:line)",
+        "TIE BY TRANSLATION (gen pure-convert, harness/cmd/gen/pure*.go -> lean/Stgutg/Gen/PureConvert.lean, regenerated from the source text on every run): nasConvert.AmfIdToNas, PlmnIDToNas, SnssaiToNas (hex.DecodeString stays a parameter on both sides; ProtocolConfigurationOptions.go, ngapConvert and util_3gpp stay tied by the conv domain only). The theorems GenTie.Convert.{AmfIdToNas_eq, PlmnIDToNas_eq, SnssaiToNas_eq} prove generated definition = hand model for ALL inputs, so a change of the Go text changes the generated definition and the theorem stops checking, whatever input would show it. Trusted here instead of sampling: the translator's grammar and its runtime Gen/PureRt.lean (Go's fixed-width arithmetic, index / slice panics, value semantics of slices under the translator's no-alias check, go/types constant evaluation); a construct outside the grammar fails closed (TRANSLATOR-FAILED file:line); the translator and its runtime are themselves checked against the Go compiler on every run: gen pure-selftest translates harness/cmd/gen/pureselftest/fns.go and writes the results of EXECUTING the compiled functions beside the translation (Gen/PureSelftest.lean: 97 calls incl. wrap-around, MinInt / -1, division by zero, index / slice panics, shadowing, break / continue, receiver mutation, as kernel-checked equalities)",
         'Model/Convert.lean is a hand model of nasConvert/{PlmnId,Snssai,AmfId,ProtocolConfigurationOptions}.go, ngapConvert/IpAddress.go, util_3gpp/3gpp_type.go tied by the conv domain',
         'encoding/hex.DecodeString, net.ParseIP, net.IP.String (and IP.To4/To16/net.IPv4, modelled concretely) are EXTERNALS: every theorem quantifies over an arbitrary Ext; the transport-layer-address theorems assume of it exactly V4Text / V6Text (ParseIP reads the text as the address and IP.String prints the address as that text, i.e. the text is canonical); the S-NSSAI and AMF-ID theorems assume hex.DecodeString returns the three octets. Model/NetExt.lean re-implements the three calls (Go 1.23 netip parser/printer) for the comparator only and is itself compared with the real functions (ops x-hexdec, x-parseip, x-ipstr, 46 malformed texts included)',
         'bytes.Buffer / binary.Write / binary.Read of uint8, uint16 (big endian) and []byte are modelled by list operations in pcoMarshal / pcoLoop',
